@@ -14,6 +14,7 @@ import Driver.HAgc3
 import Driver.HFasta
 import Driver.HCli
 import Driver.HFileIO
+import Driver.HWriter
 /-!
 `ragc_model`: executes the Lean models behind a one-line-in / one-line-out protocol.
 Every handler returns `none` for a request it does not understand; the reply is then `bad-op`.
@@ -21,7 +22,7 @@ Every handler returns `none` for a request it does not understand; the reply is 
 namespace Driver
 
 def handlers : List (List String → Option String) :=
-  [handleKmer, handleTuple, handleSegment, handleQueue, handleContainer, handleRange, handleColl, handleLz, handleSplitters, handlePipe, handleReader, handleAgc3, handleFasta, handleCli, handleFileIO]
+  [handleKmer, handleTuple, handleSegment, handleQueue, handleContainer, handleRange, handleColl, handleLz, handleSplitters, handlePipe, handleReader, handleAgc3, handleFasta, handleCli, handleFileIO, handleWriter]
 
 def dispatch (line : String) : String :=
   let fields := line.trimAscii.toString.splitOn " "
